@@ -11,6 +11,7 @@ Trees == << << E("a.xml", "xml", 0), E("b.xml", "xml", 0) >>,
             << E("ent.xml", "xmlent", 0), E("a.xml", "xml", 0), E("noext", "noext", 0) >>,
             << E("j.json", "json", 0), E("h.html", "html", 0), E("d", "dir", 0), E("k.xml", "xml", 3) >>,
             << E("data.txt", "txtjson", 0) >>,
+            << E("first.xml", "xml", 0), E("no-such.xml", "missing", 0), E("second.xml", "xml", 0), E("gone", "missing", 0), E("third.json", "json", 0) >>,
             << E("-", "stdinxml", 0), E("a.xml", "xml", 0), E("pic.svg", "svg", 0), E("r%20x%s %d.xml", "xml", 0) >>,                                   \* standard input next to a file
             << E("ln.xml", "linkxml", 0), E("d", "dir", 0), E("l2.xml", "linkxml", 2), E("r.xml", "xml", 2) >> >>   \* symbolic links, named and found by -r
 Bools == {TRUE, FALSE}
